@@ -51,6 +51,10 @@ def cases(tier, seed):
     for form in GM_FORMS:
         for t in (0, 1):
             out.append(('gm', form, t))
+    # columns with a large offset / a tiny scale (epoch-like, 1e-9 units): "nearly constant" for a relative tolerance, yet
+    # the default selection must still be the min-KS search
+    for form in ('default', 'dict-subset', 'boom-dict', 'wrapper-positional'):
+        out.append(('gm', form, 2))
     # the same forms on a model that was given a random_state (the seed must not change how columns are modelled)
     for form in GM_FORMS:
         if form != 'dict-reused-after-fallback':
@@ -184,9 +188,12 @@ def _table(t):
     if t == 0:
         cols = {'b': stats.norm(2, 1.5).ppf(P[:, 0]), 'a': stats.gamma(2.0).ppf(P[:, 1]) + 0.5,
                 'c': 0.5 * stats.norm.ppf(P[:, 0]) + stats.uniform(1, 8).ppf(P[:, 2])}
-    else:
+    elif t == 1:
         cols = {2: stats.uniform(1, 8).ppf(P[:, 2]), 0: stats.norm(5, 1).ppf(P[:, 0]) ** 2 / 10,
                 1: stats.beta(2, 3).ppf(P[:, 1]) * 9 + 0.5}
+    else:
+        cols = {'epoch': 1.7e9 + 14000.0 * stats.beta(2, 5).ppf(P[:, 0]), 'mid': stats.gamma(2.0).ppf(P[:, 1]) + 0.5,
+                'tiny': 1e-9 * stats.uniform(1, 8).ppf(P[:, 2])}
     return pd.DataFrame(cols)
 
 
@@ -306,9 +313,24 @@ def _gm(r, case):
             r.violation(f'C05:gm:prototype-options:{form}', f'{tag}: column {col!r} KDE does not use bw_method={bw!r} of the '
                         f'prototype', case=case)
 
+    def expect_default(c):
+        """Unnamed / default columns use the default selection: min-KS over all 8 families."""
+        if not expect(c, set(ALL8), 'default selection'):
+            return
+        x = df[c]              # same container as GaussianMultivariate hands to the marginal (a Series: TruncatedGaussian
+        #                        starts its optimiser from X.std(), which is ddof=1 for a Series and ddof=0 for an array)
+        refs = {k: _ref_ks(x, _cls(k)) for k in ALL8}
+        fit = {k: v for k, v in refs.items() if np.isfinite(v)}
+        mine = ks_stat(x, gm.univariates[cols.index(c)].cdf)
+        r.tr(len(ALL8))
+        if not mine <= min(fit.values()) + 1e-12:
+            r.violation(f'C05:gm:default-not-min-ks:{form}', f'{tag}: default column {c!r} is modelled by '
+                        f'{types[cols.index(c)]} with KS={mine:.5f}, the best candidate '
+                        f'{min(fit, key=fit.get)} has {min(fit.values()):.5f}', case=case)
+
     if form == 'default':
         for c in cols:
-            expect(c, set(ALL8), 'default selection')
+            expect_default(c)
     elif form == 'class':
         for c in cols:
             expect(c, {'GammaUnivariate'}, 'class for all columns')
@@ -338,23 +360,16 @@ def _gm(r, case):
                                 f'prototype was TruncatedGaussian(0.0, 12.0)', case=case)
     elif form == 'wrapper-positional':
         expect(c1, {'GammaUnivariate', 'UniformUnivariate'}, 'Univariate([Gamma, Uniform]) prototype')
-        expect(c0, set(ALL8), 'default')
+        expect_default(c0)
+        expect_default(c2)
     elif form == 'dict-all':
         expect(c0, {'GaussianUnivariate'}, 'dict')
         expect(c1, {'GammaUnivariate'}, 'dict')
         expect(c2, {'UniformUnivariate'}, 'dict')
     elif form == 'dict-subset':
         expect(c1, {'BetaUnivariate'}, 'dict')
-        # unnamed columns use the default selection: min-KS over all 8
         for c in (c0, c2):
-            x = df[c]          # same container as GaussianMultivariate hands to the marginal (a Series: TruncatedGaussian
-            #                    starts its optimiser from X.std(), which is ddof=1 for a Series and ddof=0 for an array)
-            refs = {k: _ref_ks(x, _cls(k)) for k in ALL8}
-            fit = {k: v for k, v in refs.items() if np.isfinite(v)}
-            mine = ks_stat(x, gm.univariates[cols.index(c)].cdf)
-            if not mine <= min(fit.values()) + 1e-12:
-                r.violation(f'C05:gm:default-not-min-ks:{form}', f'{tag}: unnamed column {c!r} got KS={mine:.5f}, best '
-                            f'candidate has {min(fit.values()):.5f}', case=case)
+            expect_default(c)
     elif form == 'dict-mixed':
         expect(c0, {'UniformUnivariate'}, 'dict name')
         if expect(c1, {'GaussianKDE'}, 'dict instance'):
@@ -366,7 +381,7 @@ def _gm(r, case):
     elif form == 'boom-dict':
         expect_gaussian_fallback(c1)
         expect(c2, {'UniformUnivariate'}, 'dict')
-        expect(c0, set(ALL8), 'default')
+        expect_default(c0)
     # the model is usable
     try:
         np.random.seed(1)
